@@ -108,6 +108,9 @@ pub enum Op {
     Frame(Vec<u8>),
     Advance(i128),
     Prune(u64),
+    /// the receiver moved (a gpsd-fed client passes a new position with every frame) and/or the
+    /// range setting changed: applies to the frames that follow
+    Receiver((f64, f64), f64),
 }
 
 pub struct History {
@@ -255,8 +258,20 @@ pub fn gen_history(r: &mut Rng, kind: &'static str, with_time: bool) -> History 
         _ => r.range(40, 260),
     } as usize;
     let mut ops = Vec::with_capacity(len);
-    let t_choices: [u64; 6] = [0, 1, 2, 10, 120, 1 << 32];
+    let t_choices: [u64; 10] = [0, 1, 2, 10, 120, 1 << 32, i64::MAX as u64, 1 << 63, (1 << 63) + 4_000_000_000, u64::MAX];
+    // every fourth history has a mobile receiver
+    let mobile = r.below(4) == 0;
+    let (mut rx, mut range) = (receiver, max_range);
     for _ in 0..len {
+        if mobile && r.below(25) == 0 {
+            let d = *r.pick(&[0.3, 2.0, 10.0, 60.0]);
+            rx = cpr::destination(rx.0, rx.1, r.f64() * 360.0, d);
+            if r.below(5) == 0 {
+                range = *r.pick(&RANGES);
+            }
+            ops.push(Op::Receiver(rx, range));
+            continue;
+        }
         if with_time {
             match r.below(10) {
                 0 | 1 => {
@@ -403,6 +418,24 @@ pub fn gen_marathon(r: &mut Rng) -> History {
     History { receiver, max_range: 500.0, ops, kind: "marathon" }
 }
 
+/// A very long session of one aircraft (and a quiet second one): the message count must stay exact
+/// far beyond 2^16 frames. Only non-position frames: the cheap per-step comparison applies.
+pub fn gen_counter(r: &mut Rng) -> History {
+    let n = r.range(66_000, 72_000) as usize;
+    let a = 0x4C0000 + r.below(4096) as u32;
+    let b = a + 1;
+    let cs = vec!["COUNTER1".to_string(), "COUNTER2".to_string()];
+    let mut ops = Vec::with_capacity(n + 8);
+    for k in 0..n {
+        let kind = r.below(4);
+        ops.push(Op::Frame(other_es_frame(r, a, kind, &cs)));
+        if k % 9000 == 17 {
+            ops.push(Op::Frame(other_es_frame(r, b, 0, &cs)));
+        }
+    }
+    History { receiver: (52.0, 4.0), max_range: 500.0, ops, kind: "counter" }
+}
+
 pub fn history_json(h: &History) -> Value {
     json!({
         "receiver": [h.receiver.0, h.receiver.1],
@@ -412,6 +445,7 @@ pub fn history_json(h: &History) -> Value {
             Op::Frame(m) => json!({"frame": hex(m)}),
             Op::Advance(d) => json!({"advance_ns": d.to_string()}),
             Op::Prune(t) => json!({"prune_s": t}),
+            Op::Receiver(p, range) => json!({"receiver": [p.0, p.1], "max_range": range}),
         }).collect::<Vec<_>>(),
     })
 }
@@ -428,10 +462,19 @@ pub fn run_history(g: &Gillham, col: &mut Collector, h: &History, upto: usize) -
     vclock::set_ns(i128::from(BASE_SEC) * 1_000_000_000);
     let mut first_bad: Option<usize> = None;
     let mut processed = 0usize;
+    let (mut rx, mut range) = (h.receiver, h.max_range);
     for (idx, op) in h.ops.iter().enumerate().take(upto) {
         let mut dis = Vec::new();
         processed = idx + 1;
         match op {
+            Op::Receiver(p, rg) => {
+                rx = *p;
+                range = *rg;
+                model.receiver = rx;
+                model.max_range = range;
+                col.count("receiver_moves", 1);
+                continue;
+            }
             Op::Advance(d) => {
                 model.advance(*d);
                 vclock::set_ns(i128::from(BASE_SEC) * 1_000_000_000 + model.now_ns);
@@ -465,10 +508,8 @@ pub fn run_history(g: &Gillham, col: &mut Collector, h: &History, upto: usize) -
                 };
                 let ev = event_of(g, m);
                 let before_tracked = if let Event::Es { addr, .. } = &ev { model.record_exists(*addr) } else { true };
-                let rx = h.receiver;
-                let range = h.max_range;
                 // a frame of another downlink format must change nothing at all (clock is frozen)
-                let before_non_es = if ev == Event::NonEs && h.kind != "crowd" { Some(format!("{planes:?}")) } else { None };
+                let before_non_es = if ev == Event::NonEs && h.kind != "crowd" && h.kind != "counter" { Some(format!("{planes:?}")) } else { None };
                 let res = mon::guarded(|| planes.action(frame, rx, range));
                 let added = match res {
                     Ok(a) => a == Added::Yes,
@@ -477,10 +518,18 @@ pub fn run_history(g: &Gillham, col: &mut Collector, h: &History, upto: usize) -
                         return None;
                     }
                 };
-                if h.kind == "crowd" && idx % 97 != 0 && idx + 1 != h.ops.len() {
+                if (h.kind == "crowd" || h.kind == "counter") && idx % 97 != 0 && idx + 1 != h.ops.len() {
                     // busy-sky histories: cheap per-step checks, full snapshot comparison every 97 steps
                     let empty = Snapshot::new();
                     let mut d = model.step_without_comparison(&ev, added, &empty);
+                    if let Event::Es { addr, .. } = &ev {
+                        // the message count is exact at every step, however long the session
+                        let k = ICAO([(addr >> 16) as u8, (addr >> 8) as u8, *addr as u8]);
+                        let got = planes.get(k).map(|s| u64::from(s.num_messages));
+                        if got != model.messages_of(*addr) {
+                            d.push(vref::tracker::Disagreement { prop: "C12", clause: "message_count", detail: format!("addr {addr:06x}: {got:?} counted, {:?} received", model.messages_of(*addr)) });
+                        }
+                    }
                     if planes.len() != model.tracked().len() {
                         d.push(vref::tracker::Disagreement { prop: "C12", clause: "tracked_set", detail: format!("{} aircraft tracked, {} distinct addresses were heard and none expired", planes.len(), model.tracked().len()) });
                     }
@@ -560,12 +609,17 @@ fn isolation(g: &Gillham, col: &mut Collector, h: &History, planes: &Airplanes, 
     for a in addrs {
         vclock::set_ns(i128::from(BASE_SEC) * 1_000_000_000);
         let mut solo = Airplanes::new();
+        let (mut rx, mut range) = (h.receiver, h.max_range);
         for op in h.ops.iter().take(processed) {
+            if let Op::Receiver(p, rg) = op {
+                rx = *p;
+                range = *rg;
+            }
             if let Op::Frame(m) = op {
                 if let Event::Es { addr, .. } = event_of(g, m) {
                     if addr == a {
                         if let Ok(f) = Frame::from_bytes(m) {
-                            let _ = solo.action(f, h.receiver, h.max_range);
+                            let _ = solo.action(f, rx, range);
                         }
                     }
                 }
@@ -603,7 +657,8 @@ pub fn run(ctx: &Ctx) -> i32 {
             // a few busy-sky histories per run (C12: the set only shrinks through expiry)
             let crowd = !with_time && ctx.prop == "C12" && i % 300 == 7;
             let marathon = !with_time && i % 1500 == 11;
-            let h = if crowd { gen_crowd(r) } else if marathon { gen_marathon(r) } else { gen_history(r, kind, with_time) };
+            let counter = !with_time && ctx.prop == "C12" && i % 3000 == 13;
+            let h = if crowd { gen_crowd(r) } else if counter { gen_counter(r) } else if marathon { gen_marathon(r) } else { gen_history(r, kind, with_time) };
             let kind = h.kind;
             slot.begin(|| format!("tracker history #{i} kind {kind}"));
             let planes = run_history(&ctx.g, col, &h, usize::MAX);
@@ -635,11 +690,11 @@ pub fn run(ctx: &Ctx) -> i32 {
     let distinct = col.counters.get("histories").copied().unwrap_or(0);
     let (rule, assumptions): (&str, Vec<&str>) = match ctx.prop.as_str() {
         "C15" => (
-            "seeded histories over {frame(a), advance(dt), prune(T)} for 1-12 aircraft on a per-thread virtual clock (clock_gettime interposed, frozen between advances); dt in {0, 1ns, T-1ns, T, T+1ns, negative, random}, T in {0,1,2,10,120,2^32}; after every frame and every prune the real tracker is compared with the expiry model; distinct_nontrivial = histories (each a distinct seeded sequence with at least one frame)",
+            "seeded histories over {frame(a), advance(dt), prune(T)} for 1-12 aircraft on a per-thread virtual clock (clock_gettime interposed, frozen between advances); dt in {0, 1ns, T-1ns, T, T+1ns, negative, random}, T in {0,1,2,10,120,2^32,2^63-1,2^63,2^63+4e9,2^64-1}; after every frame and every prune the real tracker is compared with the expiry model; distinct_nontrivial = histories (each a distinct seeded sequence with at least one frame)",
             vec!["SystemTime::now()/elapsed() resolve to the interposed clock_gettime (cross-checked by a real-time run without interposition)", "time is logical: the verdict never depends on wall-clock"],
         ),
         _ => (
-            "seeded histories of 40-1500 real frames (encoder -> bytes -> Frame::from_bytes -> Airplanes::action) over 1-12 aircraft: consistent flights, teleports of 99/101/150/5000 km, range-circle crossings, garbage CPR pairs, duplicates, same-parity runs, identification/velocity (with and without derived velocity)/other ES payloads, DF18 with every CF and PI != 0, non-ES formats addressed to tracked aircraft; 10 receivers incl. poles/antimeridian, 5 ranges; after every step a snapshot of the real tracker (records, details, all_position, Display) is compared with the sequential model; isolation replay for up to 6 aircraft of every 4th history; distinct_nontrivial = histories",
+            "seeded histories of 40-1500 real frames (encoder -> bytes -> Frame::from_bytes -> Airplanes::action) over 1-12 aircraft: consistent flights, teleports of 99/101/150/5000 km, range-circle crossings, garbage CPR pairs, duplicates, same-parity runs, identification/velocity (with and without derived velocity)/other ES payloads, DF18 with every CF and PI != 0, non-ES formats addressed to tracked aircraft; 10 receivers incl. poles/antimeridian, 5 ranges, every fourth history with a receiver that moves (0.3-60 km steps) and changes its range setting between frames; one 66-72k-frame single-aircraft session per 3000 histories (C12: exact count beyond 2^16); after every step a snapshot of the real tracker (records, details, all_position, Display) is compared with the sequential model; isolation replay for up to 6 aircraft of every 4th history; distinct_nontrivial = histories",
             vec!["events are derived from the frame bytes by the reference model, not by the decoder under test", "decisions within a 1e-9 relative band of the range/jump thresholds follow the implementation (counted)"],
         ),
     };
@@ -660,6 +715,8 @@ fn replay_file(g: &Gillham, col: &mut Collector, path: &str) -> Result<(), Strin
             ops.push(Op::Advance(d.parse().map_err(|_| "bad advance")?));
         } else if let Some(t) = o["prune_s"].as_u64() {
             ops.push(Op::Prune(t));
+        } else if let Some(p) = o["receiver"].as_array() {
+            ops.push(Op::Receiver((p[0].as_f64().unwrap_or(0.0), p[1].as_f64().unwrap_or(0.0)), o["max_range"].as_f64().unwrap_or(500.0)));
         }
     }
     let h = History { receiver: (rec[0].as_f64().unwrap_or(0.0), rec[1].as_f64().unwrap_or(0.0)), max_range: inp["max_range"].as_f64().unwrap_or(500.0), ops, kind: "replay" };
@@ -701,6 +758,34 @@ fn realtime_crosscheck(col: &mut Collector) {
 
 // ------------------------------------------------------------------ C20 corpus
 
+/// Inverse of the odd number `q` modulo 2^k.
+fn inv_pow2(q: u64, k: u32) -> u64 {
+    let m = (1u64 << k) - 1;
+    let mut x = q & m;
+    for _ in 0..6 {
+        x = x.wrapping_mul(2u64.wrapping_sub(q.wrapping_mul(x))) & m;
+    }
+    x
+}
+
+/// (XZ even, XZ odd) with XZ0*(NL-1) - XZ1*NL = 2^16 (mod 2^17).
+fn half_integer_lon(r: &mut Rng, nl: u64) -> Option<(u32, u32)> {
+    if nl < 2 {
+        return Some((r.below(131072) as u32, 65536));
+    }
+    let g = nl - 1;
+    let a = g.trailing_zeros();
+    let q = g >> a;
+    // 2^16 + XZ1*NL must be divisible by 2^a: NL is odd whenever a > 0, so XZ1 is a multiple of 2^a
+    let xo = (r.below(131072 >> a)) << a;
+    let rhs = (65536 + xo * nl) >> a;
+    let k = 17 - a;
+    let base = (rhs % (1 << k)) * inv_pow2(q, k) % (1 << k);
+    let xe = (base + (r.below(1 << a) << k)) % 131072;
+    let chk = (xe * g + 131072 * 64 * nl - xo * nl) % 131072;
+    if chk == 65536 % 131072 { Some((xe as u32, xo as u32)) } else { None }
+}
+
 /// Writes the corpus replayed by the three feature-set builds of the dumper.
 pub fn gen_c20_corpus(ctx: &Ctx, out: &str) -> std::io::Result<(u64, u64, u64)> {
     use std::io::Write;
@@ -715,6 +800,52 @@ pub fn gen_c20_corpus(ctx: &Ctx, out: &str) -> std::io::Result<(u64, u64, u64)> 
         let m = if i % 3 == 0 { crate::gen::random_buffer(&mut r) } else { classes[(r.below(classes.len() as u64)) as usize].make(&mut r) };
         writeln!(w, "F {}", hex(&m))?;
     }
+    // frames whose fields take their "default" values (all-zero / all-one payloads, blank
+    // identifications, zero addresses): what a serializer that skips defaults would lose
+    let mut n_default = 0u64;
+    let fills: [[u8; 7]; 4] = [[0; 7], [0xFF; 7], [0x00, 0x82, 0x08, 0x20, 0x82, 0x08, 0x20], [0x00, 0x00, 0x00, 0x00, 0x82, 0x08, 0x20]];
+    for df in [17u8, 18] {
+        for ca in 0..8u8 {
+            for tc in 0..32u8 {
+                for (k, fill) in fills.iter().enumerate() {
+                    for st in [0u8, 1, 7] {
+                        let mut me = *fill;
+                        setbits(&mut me, 1, 5, u64::from(tc));
+                        if k < 2 || tc > 4 {
+                            setbits(&mut me, 6, 8, u64::from(st));
+                        }
+                        let addr = if (ca + tc) % 3 == 0 { 0 } else { 0x4840D6 };
+                        writeln!(w, "F {}", hex(&encode::long_frame(df, ca, addr, &me)))?;
+                        n_default += 1;
+                    }
+                }
+            }
+        }
+    }
+    for df in [16u8, 20, 21] {
+        for fill in &fills {
+            for first in [0x00u8, 0x10, 0x20, 0x30, 0xFF] {
+                let mut p = *fill;
+                p[0] = first;
+                for body in [0u32, 0x7FF_FFFF, 0x0001FFF] {
+                    writeln!(w, "F {}", hex(&encode::long_ap(df, body, &p, if first == 0 { 0 } else { 0xABCDEF })))?;
+                    n_default += 1;
+                }
+            }
+        }
+    }
+    for df in [0u8, 4, 5] {
+        for body in [0u32, 0x7FF_FFFF, 0x0001FFF, 0x0000001] {
+            writeln!(w, "F {}", hex(&encode::short_ap(df, body, 0)))?;
+            writeln!(w, "F {}", hex(&encode::short_ap(df, body, 0xFFFFFF)))?;
+            n_default += 2;
+        }
+    }
+    for ca in 0..8u8 {
+        writeln!(w, "F {}", hex(&encode::all_call(ca, 0, 0)))?;
+        writeln!(w, "F {}", hex(&encode::all_call(ca, 0xFFFFFF, 15)))?;
+        n_default += 2;
+    }
     for _ in 0..n_pairs {
         let o = r.below(2);
         let o2 = if r.chance(0.9) { 1 - o } else { o };
@@ -728,6 +859,30 @@ pub fn gen_c20_corpus(ctx: &Ctx, out: &str) -> std::io::Result<(u64, u64, u64)> 
         let b = cpr::encode(lat, lon, true);
         writeln!(w, "P {} {} 0 {} {} 1", a.yz, a.xz, b.yz, b.xz)?;
         writeln!(w, "P {} {} 1 {} {} 0", b.yz, b.xz, a.yz, a.xz)?;
+    }
+    // pairs whose zone-index expressions are exact half-integers (59*YZ0 - 60*YZ1 or
+    // XZ0*(NL-1) - XZ1*NL an odd multiple of 2^16): where floor(x + 1/2), round-half-away and
+    // round-half-even part ways, for negative and positive x
+    let n_half = n_pairs / 4;
+    for k in 0..n_half {
+        let lat = (r.f64() * 2.0 - 1.0).asin().to_degrees();
+        let lon = r.f64() * 360.0 - 180.0;
+        let (mut e, mut o) = (cpr::encode(lat, lon, false), cpr::encode(lat, lon, true));
+        if k % 4 != 3 {
+            let nl = u64::from(cpr::nl(lat));
+            if let Some((xe, xo)) = half_integer_lon(&mut r, nl) {
+                e.xz = xe;
+                o.xz = xo;
+            }
+        }
+        if k % 4 >= 2 {
+            let yo = r.below(131072);
+            let ye = ((65536 + 60 * yo) % 131072) * inv_pow2(59, 17) % 131072;
+            e.yz = ye as u32;
+            o.yz = yo as u32;
+        }
+        writeln!(w, "P {} {} 0 {} {} 1", e.yz, e.xz, o.yz, o.xz)?;
+        writeln!(w, "P {} {} 1 {} {} 0", o.yz, o.xz, e.yz, e.xz)?;
     }
     let kinds: [&'static str; 4] = ["mixed", "few", "garbage", "mixed"];
     for i in 0..n_hist {
@@ -744,5 +899,5 @@ pub fn gen_c20_corpus(ctx: &Ctx, out: &str) -> std::io::Result<(u64, u64, u64)> 
         writeln!(w, "D")?;
     }
     w.flush()?;
-    Ok((n_frames, n_pairs + n_pairs / 2, n_hist))
+    Ok((n_frames + n_default, n_pairs + n_pairs / 2 + 2 * n_half, n_hist))
 }
